@@ -27,7 +27,7 @@ EXPLANATION = (
     '(d) shared rules whose violation corrupts delivered bytes: fragments of one stream are not displaced behind '
     'frames of that stream (C05.a), reassembly keeps the flags of the last fragment (C03.c), the last-fragment mark '
     'is an exhaustion test (C03.f).')
-EXPLANATION_ADDED = ("(e) received frames reach the code the other rules analyse: the receive loop passes every frame of the transport and its dispatch table to _handle_next_frame, which puts fragmentable frames through the reassembly cache exactly once and dispatches the cache's result, sends stream-0 frames and new requests (never offered to the stream table first) to the table and everything else to the stream table; table[type(frame)] is awaited with the frame; each row's method calls the application's entry point once with Payload(frame.data, frame.metadata), creates the matching responder and hands it the request frame; the handler future of a request-response is wired to the responder's send callback; (f) per (interaction, role, event) what a handler does on every path from its initial state is the protocol's reaction (signals, frames with their flags, future resolution, credit, cancellation), on the right branch of the tests it depends on; (g) the library's stream source hands every credited element on exactly once (C06.e), new_frame_fragment (C03.b) and the queue class (C05.f) do what the picker assumes.")
+EXPLANATION_ADDED = ("(e) received frames reach the code the other rules analyse: the receive loop passes every frame of the transport and its dispatch table to _handle_next_frame, which puts fragmentable frames through the reassembly cache exactly once and dispatches the cache's result, sends stream-0 frames and new requests (never offered to the stream table first) to the table and everything else to the stream table; table[type(frame)] is awaited with the frame; each row's method calls the application's entry point once with Payload(frame.data, frame.metadata), creates the matching responder and hands it the request frame; the handler future of a request-response is wired to the responder's send callback; (f) per (interaction, role, event) what a handler does on every path from its initial state is the protocol's reaction (signals, frames with their flags, future resolution, credit, cancellation), on the right branch of the tests it depends on; (g) the library's stream source hands every credited element on exactly once (C06.e), new_frame_fragment (C03.b) and the queue class (C05.f) do what the picker assumes; the awaitable adapter binds its limit_rate to the collector's refill size and nothing to its element cut-off, so it collects the whole stream (shared C06.a).")
 EXPLANATION = EXPLANATION.replace(' Not decided', ' ' + EXPLANATION_ADDED + ' Not decided', 1) \
     if ' Not decided' in EXPLANATION else EXPLANATION + ' ' + EXPLANATION_ADDED
 ASSUMPTIONS = COMMON_ASSUMPTIONS
@@ -387,6 +387,13 @@ def rule_h(ctx):
     rule_source(ctx, 'C06.e')
 
 
+def rule_i(ctx):
+    """The awaitable adapter collects the whole stream: the limit_rate it is given is the collector's refill size
+    and nothing is bound to the collector's element cut-off (shared C06.a)."""
+    from .c06 import rule_g as c06g
+    c06g(ctx)
+
+
 def rule_g(ctx):
     """What each handler does for each event is the protocol's reaction (delivery, emission, credit, cancellation)."""
     from .reactions import rule_reactions
@@ -405,4 +412,4 @@ def rule_d(ctx):
     c03f(ctx)
 
 
-RULES = [('C01.a', rule_a), ('C01.b', rule_b), ('C01.c', rule_c), ('C01.d', rule_e), ('C01.e', rule_f), ('C01.f', rule_g), ('C06.e', rule_h), ('C05.a+C05.f+C03.b+C03.c+C03.f', rule_d)]
+RULES = [('C01.a', rule_a), ('C01.b', rule_b), ('C01.c', rule_c), ('C01.d', rule_e), ('C01.e', rule_f), ('C01.f', rule_g), ('C06.e', rule_h), ('C06.a', rule_i), ('C05.a+C05.f+C03.b+C03.c+C03.f', rule_d)]
